@@ -48,6 +48,36 @@ structure Cfg where
   check : List Char → List Char → CheckRes
   digestOf : List Char → DigRes
 
+/-! ### the documented way to write a checker: implement only `getPassword()`; `checkPassword()` and
+`getDigest()` are then the library's defaults (src/server/QXmppPasswordChecker.cpp) -/
+
+/-- result of `getPassword(request, password)` -/
+inductive PwRes
+  | ok (secret : List Char)   -- NoError, the account's password
+  | nouser                    -- AuthorizationError
+  | temp                      -- TemporaryError
+  deriving DecidableEq, Repr
+
+/-- `QXmppPasswordChecker::checkPassword` (default): compare with the stored password; any error is passed on
+(an authorization error both for "no such user" and for "wrong password") -/
+def checkDefault (gp : List Char → PwRes) (u p : List Char) : CheckRes :=
+  match gp u with
+  | .ok s => if p = s then .ok else .bad
+  | .nouser => .bad
+  | .temp => .temp
+
+/-- `QXmppPasswordChecker::getDigest` (default): MD5(user:domain:password) — `md5 u s` here — ONLY when
+`getPassword` reported no error; otherwise the error and an empty digest -/
+def digestDefault (gp : List Char → PwRes) (md5 : List Char → List Char → List Char) (u : List Char) : DigRes :=
+  match gp u with
+  | .ok s => .digest (md5 u s)
+  | .nouser => .nouser
+  | .temp => .temp
+
+/-- the configuration a `getPassword`-only checker gives -/
+def Cfg.ofGetPassword (domain : List Char) (gp : List Char → PwRes) (md5 : List Char → List Char → List Char) : Cfg :=
+  { domain := domain, check := checkDefault gp, digestOf := digestDefault gp md5 }
+
 /-! ### SASL server objects (QXmppSaslServer*) -/
 
 inductive Mech | plain | digest | anon
